@@ -334,7 +334,10 @@ theorem walkBlockOf_tracks {S : Nat → Prop} {body : Run} (h : Tracks S body) :
 theorem renderBlockOf_tracks {S : Nat → Prop} {body : Run} (h : Tracks S body) (ctx : Scope) (st : St) :
     Step S st (renderBlockOf body ctx st).1.st := by
   unfold renderBlockOf
-  exact walkBlockOf_tracks h ctx { st with out := [] }
+  simp only [restoreNode]
+  split
+  · exact Or.inl rfl
+  · exact walkBlockOf_tracks h ctx { st with out := [] }
 
 theorem forLoop_tracks {S : Nat → Prop} {body : Run} (h : Tracks S body) (var : Bytes) (last : Int) :
     ∀ (xs : List Value) (i : Nat), Tracks S (forLoop body var last xs i) := by
